@@ -25,6 +25,7 @@ def sync():
     subprocess.run(["rsync", "-a", "--delete", "--exclude", "target", "--exclude", ".git", "/repo/", SCRATCH + "/repo/"], check=True)
     subprocess.run(["rsync", "-a", "--delete", "--exclude", "target", "--exclude", ".git", "--exclude", "evidence",                     ROOT + "/", SCRATCH + "/verif/"], check=True)
     os.makedirs(SCRATCH + "/verif/evidence", exist_ok=True)
+    subprocess.run(["sed", "-i", 's|path = "/repo"|path = "%s/repo"|' % SCRATCH, SCRATCH + "/verif/harness/Cargo.toml"], check=True)
     subprocess.run("rm -f %s/verif/replays/*/viol-*" % SCRATCH, shell=True)
 
 def apply(m):
